@@ -796,7 +796,10 @@ def check_c12(exe, tier, seed, verdict):
         # suffix spellings / process-wide drop-in list on the same tree
         sc += ["setconfdirs %s" % hx(".conf.d"), "readdirs 70 %s %s %s %s x3d x23" % (hx(R + "/usr/etc"), hx(R + "/etc"), hx("cfg"), hx(".conf")),
                "dump 70", "free 70", "setconfdirs"]
-        # the two directories given as RELATIVE names (the process stands in the tree's root)
+        # the two directories given as RELATIVE names (the process stands in the tree's root) - right after a read with the SAME
+        # relative names from another working directory (a small tree of its own)
+        sc += ["file %s %s" % (hx(R + "/elsewhere/etc/cfg.conf"), hx("ELSEWHERE=1\n")), "file %s %s" % (hx(R + "/elsewhere/usr/etc/cfg.conf.d/e.conf"), hx("E=1\n")),
+               "chdir %s" % hx(R + "/elsewhere"), "readdirs 84 %s %s %s %s x3d x23" % (hx("usr/etc"), hx("etc"), hx("cfg"), hx("conf")), "free 84"]
         sc += ["chdir %s" % hx(R), "cbreset", "readdirs 80 %s %s %s %s x3d x23" % (hx("usr/etc"), hx("etc"), hx("cfg"), hx("conf")), "dump 80", "free 80",
                "readdirscb 81 %s %s %s %s x3d x23" % (hx("usr/etc"), hx("etc"), hx("cfg"), hx("conf")), "dump 81", "free 81", "chdir %s" % hx("/")]
         # the two directories spelt with a trailing slash / with doubled slashes
@@ -821,7 +824,9 @@ def check_c12(exe, tier, seed, verdict):
         # split events per entry point
         reads = [(j, e) for j, e in enumerate(ev) if e["op"].startswith("read")]
         bad = False
-        for (j, rd), ent in zip(reads, ents_of[i] + ["readdirs+set_conf_dirs", "readdirs(relative directories)", "readdirscb(relative directories)", "readdirs(trailing slashes)", "readdirscb(doubled slashes)"]):
+        for (j, rd), ent in zip(reads, ents_of[i] + ["readdirs+set_conf_dirs", None, "readdirs(relative directories)", "readdirscb(relative directories)", "readdirs(trailing slashes)", "readdirscb(doubled slashes)"]):
+            if ent is None:         # (the read from the other working directory: only there to come first)
+                continue
             nxt = [e for e in ev[j + 1:j + 10] if e["op"] == "dump"]
             if rd["rc"] != x["rc"]:
                 verdict.violation(fp + ":rc:" + ent, dict(case, entry=ent, got=rd["rc"]), "%s on %s: rc %s, expected %s" % (ent, tree_text(t), rd["rc"], x["rc"]))
